@@ -931,6 +931,11 @@ class Interp(object):
                 parts.append(self.models.to_str(self.eval(v.value, env)))
         return self.models.concat(parts)
 
+    def e_NamedExpr(self, e, env):
+        v = self.eval(e.value, env)
+        self.assign(e.target, v, env)          # (inside a comprehension the target belongs to the enclosing scope: see comp())
+        return v
+
     def e_IfExp(self, e, env):
         if self.truth(self.eval(e.test, env), label="ifexp@%d" % e.lineno):
             return self.eval(e.body, env)
